@@ -19,12 +19,9 @@ ImplShared(f) ==
 
 ImplSplit(f, sep) ==
   LET rs == SplitRanges(Text(f), sep) IN [j \in 1..Len(rs) |-> ImplGetRange(f, rs[j][1], rs[j][2])]
+\* as coded since fix 78e13de: the plain text's own splitlines decides the ranges, each is sliced out with __getitem__
 ImplSplitlines(f, keepends) ==
-  LET lines == ImplSplit(f, <<10>>)
-      k == Len(lines)
-      starts == [j \in 1..k |-> SumSeq([q \in 1..j - 1 |-> VLen(lines[q]) + 1])]
-      kept == IF keepends = 1 THEN [j \in 1..k |-> ImplGetRange(f, starts[j], IF j < k THEN starts[j + 1] ELSE VLen(f))] ELSE lines
-  IN IF VLen(kept[k]) = 0 THEN SubSeq(kept, 1, k - 1) ELSE kept
+  LET rs == SplitlinesRanges(Text(f), keepends) IN [j \in 1..Len(rs) |-> ImplGetRange(f, rs[j][1], rs[j][2])]
 
 RemoveBg(f) == [k \in 1..Len(f) |-> <<f[k][1], [f[k][2] EXCEPT ![BG] = 0]>>]
 PadRun(n, atts) == << <<[j \in 1..n |-> 32], atts>> >>
